@@ -189,7 +189,7 @@ DecodeMovie(img) ==
 -----------------------------------------------------------------------------
 (* Field map of a (small, fully materialised) image: the positions of the length / count /
    version / offset words that steer the parser -- every box size field (and 64-bit size), and
-   the first words of every leaf payload (version+flags, entry counts, sample counts, sizes).
+   the first ten words of every leaf payload (version+flags, entry counts, sample counts, sizes, the first table entries).
    Used to generate structure-aware adversarial inputs (C06-C08): <<offset, width>> pairs. *)
 \* <<offset, width, role, box, group>>: role 0 = a box size field, 1 = the first payload word of a leaf
 \* (version + flags of a full box), 2 = another payload word, 3 = a 64-bit window; box = offset of the
@@ -205,9 +205,9 @@ NodeFields(b, k, g0) ==
   THEN LET ks == Kids(b, PayloadLo(k) + p, PayloadHi(k)) IN
        own \cup {<<PayloadLo(k) + 4 * w, 4, 2, k.o, gg>> : w \in 0..((IF p > 8 THEN 8 ELSE p) \div 4 - 1)}
            \cup UNION {NodeFields(b, ks.kids[i], g) : i \in 1..Len(ks.kids)}
-  ELSE own \cup {<<PayloadLo(k) + 4 * w, 4, IF w = 0 THEN 1 ELSE 2, k.o, gg>> : w \in 0..((IF k.s - k.h > 24 THEN 24 ELSE k.s - k.h) \div 4 - 1)}
+  ELSE own \cup {<<PayloadLo(k) + 4 * w, 4, IF w = 0 THEN 1 ELSE 2, k.o, gg>> : w \in 0..((IF k.s - k.h > 40 THEN 40 ELSE k.s - k.h) \div 4 - 1)}
            \* 64-bit quantities (co64 entries, version-1 times, base data offsets) at every word position
-           \cup {<<PayloadLo(k) + 4 * w, 8, 3, k.o, gg>> : w \in 0..((IF k.s - k.h > 24 THEN 24 ELSE k.s - k.h) \div 4 - 2)}
+           \cup {<<PayloadLo(k) + 4 * w, 8, 3, k.o, gg>> : w \in 0..((IF k.s - k.h > 40 THEN 40 ELSE k.s - k.h) \div 4 - 2)}
 FieldMapOf(bytes) ==
   LET ks == Kids(bytes, 0, Len(bytes)) IN
   UNION {IF ks.kids[i].t = MDAT THEN {<<ks.kids[i].o, 4, 0, ks.kids[i].o, ks.kids[i].o>>} ELSE NodeFields(bytes, ks.kids[i], -1) : i \in 1..Len(ks.kids)}
